@@ -710,7 +710,7 @@ impl Story {
         {
             let func_params = self
                 .get_state_mut()
-                .pop_evaluation_stack_multiple(func.get_number_of_parameters());
+                .pop_evaluation_stack_multiple(func.get_number_of_parameters())?;
             let result = func.call(func_params)?;
             self.get_state_mut().push_evaluation_stack(result);
             return Ok(true);
